@@ -233,7 +233,10 @@ class RefDEVS:
         if eid == "W":
             self.obs = []          # the warm-up resets the simulation statistics
             self.warm_done = True
-            for i, v, w in self.p.get("warmup_obs", ()):
+            # (init_obs: subscribers of a statistic's own INITIALIZED notification, which
+            # follows that statistic's reset; they come before the WARMUP subscribers
+            # the model registered after creating its statistics)
+            for i, v, w in list(self.p.get("init_obs", ())) + list(self.p.get("warmup_obs", ())):
                 # a subscriber of the warm-up notification that observes (after the reset)
                 self.obs.append((i % max(1, self.p.get("_n_stats", 1)), v, w, self.clock))
         if eid != "W":
